@@ -145,6 +145,7 @@ func checkC01(r *Run) {
 		runPacksWith(r, feat, 60, fv, "print", strictRef, &st, featSource)
 		r.Count("featgen_cases", len(feat))
 	}
+	c01JSX(r)
 	// sloppy-mode semantics with the format left alone
 	{
 		var sv []packVariant
